@@ -66,6 +66,13 @@ var realComponents = []string{"github.com/zclconf/go-cty/cty (instrumented copy 
 	"cty/json", "cty/msgpack", "cty/gocty", "cty/ctystrings", "github.com/vmihailenco/msgpack/v5", "github.com/apparentlymart/go-textseg/v15", "golang.org/x/text/unicode/norm", "Go standard library"}
 
 var props = map[string]*propCfg{
+	"C20": {race: true, quickRuns: 1 << 40, quickBudget: 55 * time.Second, thorBudget: 10 * time.Minute, thorRuns: 1 << 40, level: "exploration", procShrink: 60,
+		rule: "one evaluation = one simulated world: a shared pool of 6..40 generated values (all kinds, marks, refined unknowns, capsules, collision-prone sets), types, shared ValueSets/PathSets and paths; 2..16 caller tasks each running a seeded history of 3..35 operations drawn from a per-run random subset of ~75 operations over the public API (operation methods, accessors followed by mutation of the returned Go data, constructors followed by mutation of the data passed in, ValueSet/PathSet copy-and-diverge life cycles, refinement builders reused after NewValue, Walk/Transform/Path.Apply, convert, stdlib function calls, JSON/msgpack/gocty round trips). The same programs are executed five times: sequentially (fingerprints of every pre-existing object re-checked after every operation), sequentially again (purity), sequentially under another map-iteration order, and twice concurrently under the seeded baton scheduler (random / PCT / round-robin / call-granular strategies) with the Go race detector watching. Every run is non-trivial (it fires aliasing faults and context switches); distinct = distinct (tasks, operations, pool size, multiset of fired fault kinds).",
+		assumptions: []string{"race detection is the Go race detector's happens-before analysis with history_size=7; sync.Pool and math/big's divisor-table lock are replaced in the simulation build only so that they do not order unrelated tasks (DESIGN.md §3.3)",
+			"data whose ownership the documentation passes to the library (NumberVal's big.Float, Tuple/Object type arguments, a path placed in a PathSet) is never mutated by the harness",
+			"error and panic texts and GoString of values with several marks may list members in map order; they are compared by class only",
+			"tasks mutate only helper objects they own (copies of shared ValueSets/PathSets); the shared pool is built before the tasks start"},
+		stubs: []string{"caller tasks (seeded operation histories)", "scheduler choice (seeded baton scheduler replaces the Go scheduler's choice of who runs)", "sync.Pool and math/big cacheBase10 lock (overlay, simulation build only)", "capsule operations"}},
 	"C05": {quickRuns: 160000, quickBudget: 40 * time.Second, thorBudget: 9 * time.Minute, thorRuns: 1 << 40, level: "exploration",
 		rule: "one evaluation = one simulated run: either a seeded history of 1..12 refinement-builder calls with interleaved NewValue snapshots (builder reused after a snapshot, or refining restarted from a snapshot; rejected calls are the injected contradictions) checked call by call against an interval/nullness/prefix/length model with 8 membership candidates, or one generated string cut at every rune boundary with 5 continuations each. A run is non-trivial when at least one builder call was accepted or more than one cut was examined; distinct = distinct (start type and kind | string, multiset of fired fault kinds) among non-trivial runs.",
 		assumptions: []string{"numbers are compared by their shortest decimal rendering (integers exactly), as go-cty documents for Equals since 1.9.0",
